@@ -16,6 +16,10 @@
           follows the coordinate comparison: the position decides only between vertices that are
           equal in every coordinate (a necessary condition for "the result does not depend on the
           order in which the caller listed the vertices").
+ INDEXSRC positions computed on one vertex sequence are applied to the same sequence: the index vector handed to
+          `reorder_vertices_for_simplex(seq, idx)` comes from `select_balanced_simplex_indices(seq)` on the *same*
+          `seq` (positions taken from the caller's listing and applied to the ordered buffer make the initial
+          simplex, hence the result, depend on the listing order).
 Not decided: order-independence of the result as a whole, uniqueness of the Delaunay triangulation."""
 import flow
 import gate
@@ -65,6 +69,7 @@ def run(ctx):
         prog = ctx.prog(cfg)
         mod = ctx.mod(cfg)
         _orderkey(ctx, cfg, prog, mod)
+        _indexsrc(ctx, cfg, prog, mod)
         rts = roots(prog, mod)
         ctx.floor('determinism roots (constructors + exported &mut operations)', 30, len(rts), cfg)
         reach = prog.reachable_from(rts)
@@ -341,3 +346,66 @@ def _orderkey(ctx, cfg, prog, mod):
                    '; '.join(why) if why else 'comparator %s: coordinate comparison present; position compared only in a then_with '
                    'continuation after it (%d site(s))' % (cq.rsplit('::', 1)[-1], len(pos_closures)), site=site)
     ctx.floor('sort calls in the value-based ordering strategies', 3, n, cfg)
+
+
+# ------------------------------------------------------------------------------------------ INDEXSRC
+SELECT = 'core::delaunay_triangulation::select_balanced_simplex_indices'
+REORDER = 'core::delaunay_triangulation::reorder_vertices_for_simplex'
+
+
+def _indexsrc(ctx, cfg, prog, mod):
+    ctx.rule('INDEXSRC', 'simplex positions are computed on the sequence they are applied to')
+    ctx.anchor(cfg, SELECT)
+    ctx.anchor(cfg, REORDER)
+    n = 0
+    for q, b in sorted(prog.bodies.items()):
+        al = None
+        for bb, t in b.calls():
+            if (t.resolved or t.callee) != REORDER or len(t.args) < 2:
+                continue
+            al = al or mod.aliases(q)
+            n += 1
+            seq_t = al.operand_target(t.args[0])
+            sel = []
+            if t.args[1].place is not None:
+                tt = al.operand_target(t.args[1])
+                for rl in [t.args[1].place.local] + ([tt[0]] if tt is not None else []):
+                    for leaf in valueflow.sources(b, al, rl):
+                        if leaf[0] == 'call' and (leaf[1].resolved or leaf[1].callee) == SELECT and leaf[1].args:
+                            sel.append(al.operand_target(leaf[1].args[0]))
+            # in a closure the index vector is the closure argument: look at the caller of the combinator
+            where = b
+            if not sel and b.kind == 'closure' and b.parent in prog.bodies:
+                pb = prog.bodies[b.parent]
+                pal = mod.aliases(b.parent)
+                for pbb, pt in pb.calls():
+                    if (pt.resolved or pt.callee) == SELECT and pt.args:
+                        sel.append(('parent', pal.operand_target(pt.args[0])))
+            ok, why = False, 'the index vector does not come from select_balanced_simplex_indices'
+            if sel:
+                same = []
+                for sx in sel:
+                    if isinstance(sx, tuple) and sx and sx[0] == 'parent':
+                        # compare through the capture: the closure's sequence argument is a captured reference to a parent local
+                        st = sx[1]
+                        cap = None
+                        if seq_t is not None and seq_t[0] == 1 and seq_t[1] and str(seq_t[1][0]).startswith('^'):
+                            cap = seq_t[1][0]
+                        pseq = None
+                        if cap is not None:
+                            for blk in prog.bodies[b.parent].blocks:
+                                for s_ in blk.stmts:
+                                    if s_.kind == 'A' and s_.rv.k == 'agg' and s_.rv.raw.get('ak') == 'closure' and s_.rv.raw['def'] == q:
+                                        fl = s_.rv.raw.get('fields', [])
+                                        nm = cap[1:]
+                                        if nm in fl:
+                                            pseq = mod.aliases(b.parent).operand_target(s_.rv.ops[fl.index(nm)])
+                        same.append(pseq is not None and st is not None and pseq[0] == st[0] and tuple(pseq[1]) == tuple(st[1]))
+                    else:
+                        same.append(sx is not None and seq_t is not None and sx[0] == seq_t[0] and tuple(sx[1]) == tuple(seq_t[1]))
+                ok = all(same)
+                why = 'positions are computed on the sequence they reorder' if ok else \
+                    'select_balanced_simplex_indices reads a different sequence than the one reorder_vertices_for_simplex permutes: ' \
+                    'positions of the caller\'s listing applied to the ordered buffer make the initial simplex listing-dependent'
+            ctx.ob('INDEXSRC', b.root or q, cfg, ok, why, site='%s:%d' % (b.file, t.line))
+    ctx.floor('reorder_vertices_for_simplex call sites', 1, n, cfg)
